@@ -578,6 +578,58 @@ pub fn suite_errtable(ctx: &mut Ctx, seed: u64, n: usize, threads: usize) {
             s.push_str(&format!("h c take {id} some {errno} {want}\n"));
         }
     }
+    // stampede: one id at a time, every thread asks for it at the same moment (barrier); exactly one may get it
+    {
+        let rounds = 1500usize;
+        let barrier = Arc::new(std::sync::Barrier::new(threads + 1));
+        let current = Arc::new(std::sync::atomic::AtomicI32::new(0));
+        let got = Arc::new(std::sync::atomic::AtomicUsize::new(0));
+        let mut hs = Vec::new();
+        for _ in 0..threads {
+            let (barrier, current, got) = (Arc::clone(&barrier), Arc::clone(&current), Arc::clone(&got));
+            hs.push(std::thread::spawn(move || {
+                for _ in 0..rounds {
+                    barrier.wait();
+                    let id = current.load(std::sync::atomic::Ordering::SeqCst);
+                    let e = unsafe { capi::pathrs_errorinfo(id) };
+                    if !e.is_null() {
+                        got.fetch_add(1, std::sync::atomic::Ordering::SeqCst);
+                        unsafe { capi::pathrs_errorinfo_free(e) };
+                    }
+                    barrier.wait();
+                }
+            }));
+        }
+        let mut multi = 0usize;
+        let mut none = 0usize;
+        let mut worst = 0usize;
+        let mut first_bad: Option<(usize, i32, usize)> = None;
+        for r in 0..rounds {
+            let id = verif::capi::store_error(5, libc::ENOENT);
+            current.store(id, std::sync::atomic::Ordering::SeqCst);
+            got.store(0, std::sync::atomic::Ordering::SeqCst);
+            barrier.wait();
+            barrier.wait();
+            let n = got.load(std::sync::atomic::Ordering::SeqCst);
+            if n > 1 {
+                multi += 1;
+            }
+            if n == 0 {
+                none += 1;
+            }
+            if n != 1 && first_bad.is_none() {
+                first_bad = Some((r, id, n));
+            }
+            worst = worst.max(n);
+        }
+        for h in hs {
+            let _ = h.join();
+        }
+        s.push_str(&format!(
+            "stampede rounds={rounds} threads={threads} multi={multi} none={none} worst={worst} first={}\n",
+            first_bad.map(|(r, id, n)| format!("{r}:{id}:{n}")).unwrap_or_else(|| "none".into())
+        ));
+    }
     // the id generator itself: a long run of failing calls, each consumed at once.  The model takes the generator's range
     // ([INT_MIN, -4096]: never a valid descriptor, never an -errno) as given; here it is observed on millions of draws.
     let soak: usize = std::env::var("VERIF_ERRID_SOAK").ok().and_then(|v| v.parse().ok()).unwrap_or(0);
